@@ -18,6 +18,31 @@ CHECKS = {
          "Scenes give every pixel its own destination value, coverage, clip coverage and source colour; all 28 modes, all source kinds with decidable colour, alphas, all 256 mask bytes, every mask offset, pop_layer with every blend and opacity; every pixel of every buffer after every call must equal an admissible value of M-PIX for that pixel's own inputs (exactly blend(src,dst) at full weight, unchanged at zero weight).",
          "Blend formulas are sw_composite's public primitives (trusted as definition); two compositions of coverage x clip coverage are admitted for partial weights; source colours of non-constant gradients and non-integer image sampling are left to C12/C13.",
          "DESIGN.md section 4, C03"),
+
+ "C14": ("bounded exhaustive differential exploration: fast route vs general route on identical initial contents, bit-exact",
+         "Every integer rectangle with x,y in [-2,W+2] and w,h in [-2,W+3] (zero, negative, off-surface included) x modes x source kinds x alphas x destinations is drawn by fill_rect and by fill(PathBuilder::rect), and with/without a surface-covering clip; clear(c) with/without a covering clip; draw_image_at at every integer position vs fill_rect/fill with the translated image source; surfaces must be bit-identical.",
+         "Differential: no expected value is modelled, so a defect shared by both routes is invisible here (C02/C03 cover each route against a model); surfaces 4x3 and 3x4.",
+         "DESIGN.md section 4, C14"),
+ "C15": ("bounded exhaustive enumeration of (sizes, src_rect, dst, operation) tuples against a block-transfer reference model",
+         "All source/destination sizes in {0..3}^2, all 1296 src_rects with coordinates in [-1,4] (inside, overlapping, outside, empty, inverted), all dst in [-4,4]^2, copy / blend (28 modes) / blend_with_alpha, with and without transform+clip+layer on the destination; every destination pixel compared with a double-loop model; out-of-bounds access shows as a panic.",
+         "Blend formulas are sw_composite's primitives; pairs on which the non-separable primitives overflow are skipped (counted); sizes <= 3x3.",
+         "DESIGN.md section 4, C15"),
+ "C16": ("bounded exhaustive enumeration of path op strings x tolerances; flatten output matched op by op against an f64 curve model",
+         "All op strings up to depth 3-4 over {M,L,Q,C} x off-grid points + Z (curves first, after Close, after MoveTo, consecutive curves, looping cubics) x 4 tolerances: output has only M/L/Z, M/L/Z preserved bit-exactly in order, curve vertices on the f64 curve at non-decreasing parameter from the model cursor, end point bit-exact, deviation <= 8 x tolerance; fill(path) vs fill(flatten(0.01)) differ only near the outline (both winding rules).",
+         "f64 curve evaluation with 2e-3 px vertex tolerance; strict monotonicity of deviation in tolerance is not demanded (only the 8x bound at four tolerances).",
+         "DESIGN.md section 4, C16"),
+ "C17": ("bounded exhaustive enumeration of grid polygons x query points against an exact integer winding / on-segment model",
+         "Triangles, quads, pentagons, hexagons and all M/L/Z op strings over integer grids x both rules x all 169 half-step query points (level with vertices, on edges, collinear beyond edge ends, on horizontal edges) compared with exact i64 winding numbers; plus agreement with a 4x-scaled fill for pixels with exact full / zero coverage.",
+         "Exact for grid inputs; query points coinciding only with a lone zero-length segment are left undecided.",
+         "DESIGN.md section 4, C17"),
+ "C19": ("bounded exhaustive enumeration of pixel assignments on small surfaces; every view and the decoded PNG compared with the word layout model",
+         "Every assignment of a 12-value pixel alphabet to surfaces of up to 4 pixels and one-hot scans up to 3x3 (7x5 thorough): get_data / get_data_u8 / mutable views / write_png decoded with the png crate / from_vec (exact, shorter, longer) / from_backing / into_vec / into_inner; to_u32 over 17^4 channel tuples.",
+         "Little-endian host; trusts the png crate's decoder; temporary files under /verif/target/tmp.",
+         "DESIGN.md section 4, C19"),
+ "C20": ("bounded exhaustive enumeration of helper parameters and op strings; emitted ops evaluated in f64 against the documented geometry",
+         "rect over a 144-tuple grid; arc over centres x radii (0..1000) x 16-48 start angles x 19-43 sweeps of both signs and beyond one turn, with and without a current point (radius within 0.5%, monotone angle in the sweep's direction, covered angle, end point, leading line_to); Path::transform of every op string up to depth 3-4 under 11 transforms incl. singular ones (bit-equal to transform_point, order and winding kept); finish() order.",
+         "f64 evaluation of emitted ops; 33 samples per quad.",
+         "DESIGN.md section 4, C20"),
 }
 NOT_YET = "check not built yet in this round (design in DESIGN.md section 4); will be claimed once its explorer exists"
 
